@@ -579,7 +579,7 @@ struct timespec* sentTime) {
       return setState(bs_skip, RESULT_ERR_CRC);
     }
     if (m_currentRequest != nullptr) {
-      return setState(bs_sendResAck, RESULT_ERR_CRC);
+      return setState(bs_sendResAck, RESULT_ERR_CRC, true);  // send NAK and read the response once more
     }
     return setState(bs_recvResAck, RESULT_ERR_CRC);
 
